@@ -24,7 +24,7 @@
 (* Legacy switches reproduce the pinned code: AbortChecked = FALSE (no     *)
 (* re-test after a child returns), Fallback = FALSE (unwrap of None).      *)
 (***************************************************************************)
-EXTENDS Integers, Sequences, FiniteSets, TLC
+EXTENDS Integers, Sequences, FiniteSets, TLC, TTProbe
 
 CONSTANTS B,            \* branching factor
           D,            \* depth of the tree = maximum iteration depth
@@ -98,11 +98,11 @@ MaxOf(S) == CHOOSE x \in S : \A y \in S : y <= x
         abortSeen := TRUE; ret := 0; return;
       };
   e1: a := alpha; bb := beta;
-  e1a: if (UseTT /\ tt[Key(nd)].depth >= dp) {                        \* probe
-        if (tt[Key(nd)].bound = "E") { ret := tt[Key(nd)].score; return; }
-        else if (tt[Key(nd)].bound = "L") { a := Max2(a, tt[Key(nd)].score); }
-        else { bb := Min2(bb, tt[Key(nd)].score); };
-  e1b:  if (a >= bb) { ret := tt[Key(nd)].score; return; };
+  e1a: if (UseTT /\ ProbeOutcome(tt[Key(nd)], dp, alpha, beta).ret) {  \* probe: the rule of TTProbe.tla
+        ret := ProbeOutcome(tt[Key(nd)], dp, alpha, beta).v; return;
+      } else if (UseTT) {
+        a := ProbeOutcome(tt[Key(nd)], dp, alpha, beta).a;
+        bb := ProbeOutcome(tt[Key(nd)], dp, alpha, beta).b;
       };
   e2: if (dp = 0 \/ Kids(nd) = {}) {
   q0:   if (~running \/ Exceeded) {                                 \* abort test at quiescence entry
@@ -308,41 +308,8 @@ e1(self) == /\ pc[self] = "e1"
                             rsc, rpv, rbest, d >>
 
 e1a(self) == /\ pc[self] = "e1a"
-             /\ IF UseTT /\ tt[Key(nd[self])].depth >= dp[self]
-                   THEN /\ IF tt[Key(nd[self])].bound = "E"
-                              THEN /\ ret' = tt[Key(nd[self])].score
-                                   /\ pc' = [pc EXCEPT ![self] = Head(stack[self]).pc]
-                                   /\ a' = [a EXCEPT ![self] = Head(stack[self]).a]
-                                   /\ bb' = [bb EXCEPT ![self] = Head(stack[self]).bb]
-                                   /\ rem' = [rem EXCEPT ![self] = Head(stack[self]).rem]
-                                   /\ m' = [m EXCEPT ![self] = Head(stack[self]).m]
-                                   /\ sc' = [sc EXCEPT ![self] = Head(stack[self]).sc]
-                                   /\ pv' = [pv EXCEPT ![self] = Head(stack[self]).pv]
-                                   /\ bestk' = [bestk EXCEPT ![self] = Head(stack[self]).bestk]
-                                   /\ nd' = [nd EXCEPT ![self] = Head(stack[self]).nd]
-                                   /\ alpha' = [alpha EXCEPT ![self] = Head(stack[self]).alpha]
-                                   /\ beta' = [beta EXCEPT ![self] = Head(stack[self]).beta]
-                                   /\ dp' = [dp EXCEPT ![self] = Head(stack[self]).dp]
-                                   /\ stack' = [stack EXCEPT ![self] = Tail(stack[self])]
-                              ELSE /\ IF tt[Key(nd[self])].bound = "L"
-                                         THEN /\ a' = [a EXCEPT ![self] = Max2(a[self], tt[Key(nd[self])].score)]
-                                              /\ bb' = bb
-                                         ELSE /\ bb' = [bb EXCEPT ![self] = Min2(bb[self], tt[Key(nd[self])].score)]
-                                              /\ a' = a
-                                   /\ pc' = [pc EXCEPT ![self] = "e1b"]
-                                   /\ UNCHANGED << ret, stack, nd, alpha, beta, 
-                                                   dp, rem, m, sc, pv, bestk >>
-                   ELSE /\ pc' = [pc EXCEPT ![self] = "e2"]
-                        /\ UNCHANGED << ret, stack, nd, alpha, beta, dp, a, bb, 
-                                        rem, m, sc, pv, bestk >>
-             /\ UNCHANGED << leaf, budget, running, nodes, abortSeen, 
-                             wroteDirty, unsound, tt, bestMove, bestScore, 
-                             done, info, answer, answers, dr, ra, rrem, rm, 
-                             rsc, rpv, rbest, d >>
-
-e1b(self) == /\ pc[self] = "e1b"
-             /\ IF a[self] >= bb[self]
-                   THEN /\ ret' = tt[Key(nd[self])].score
+             /\ IF UseTT /\ ProbeOutcome(tt[Key(nd[self])], dp[self], alpha[self], beta[self]).ret
+                   THEN /\ ret' = ProbeOutcome(tt[Key(nd[self])], dp[self], alpha[self], beta[self]).v
                         /\ pc' = [pc EXCEPT ![self] = Head(stack[self]).pc]
                         /\ a' = [a EXCEPT ![self] = Head(stack[self]).a]
                         /\ bb' = [bb EXCEPT ![self] = Head(stack[self]).bb]
@@ -356,9 +323,14 @@ e1b(self) == /\ pc[self] = "e1b"
                         /\ beta' = [beta EXCEPT ![self] = Head(stack[self]).beta]
                         /\ dp' = [dp EXCEPT ![self] = Head(stack[self]).dp]
                         /\ stack' = [stack EXCEPT ![self] = Tail(stack[self])]
-                   ELSE /\ pc' = [pc EXCEPT ![self] = "e2"]
-                        /\ UNCHANGED << ret, stack, nd, alpha, beta, dp, a, bb, 
-                                        rem, m, sc, pv, bestk >>
+                   ELSE /\ IF UseTT
+                              THEN /\ a' = [a EXCEPT ![self] = ProbeOutcome(tt[Key(nd[self])], dp[self], alpha[self], beta[self]).a]
+                                   /\ bb' = [bb EXCEPT ![self] = ProbeOutcome(tt[Key(nd[self])], dp[self], alpha[self], beta[self]).b]
+                              ELSE /\ TRUE
+                                   /\ UNCHANGED << a, bb >>
+                        /\ pc' = [pc EXCEPT ![self] = "e2"]
+                        /\ UNCHANGED << ret, stack, nd, alpha, beta, dp, rem, 
+                                        m, sc, pv, bestk >>
              /\ UNCHANGED << leaf, budget, running, nodes, abortSeen, 
                              wroteDirty, unsound, tt, bestMove, bestScore, 
                              done, info, answer, answers, dr, ra, rrem, rm, 
@@ -654,10 +626,10 @@ st(self) == /\ pc[self] = "st"
                             bestMove, bestScore, done, info, answer, answers, 
                             dr, ra, rrem, rm, rsc, rpv, rbest, d >>
 
-ab(self) == e0(self) \/ e1(self) \/ e1a(self) \/ e1b(self) \/ e2(self)
-               \/ q0(self) \/ q1(self) \/ e3(self) \/ lp(self) \/ lc(self)
-               \/ r1(self) \/ r1b(self) \/ r2(self) \/ r3(self) \/ ck(self)
-               \/ cu(self) \/ st(self)
+ab(self) == e0(self) \/ e1(self) \/ e1a(self) \/ e2(self) \/ q0(self)
+               \/ q1(self) \/ e3(self) \/ lp(self) \/ lc(self) \/ r1(self)
+               \/ r1b(self) \/ r2(self) \/ r3(self) \/ ck(self) \/ cu(self)
+               \/ st(self)
 
 s0(self) == /\ pc[self] = "s0"
             /\ rrem' = [rrem EXCEPT ![self] = Kids(1)]
